@@ -35,6 +35,18 @@ pub struct Model {
     pub path_len: Vec<usize>,
     pub round: Vec<usize>,
     pub first_ttl: u8,
+    /// per trace: the target's distance once it has answered (the strategy remembers it: a later
+    /// round in which nothing answers still reports it as the path length)
+    pub target_ttl: Vec<Option<u8>>,
+    /// per trace: rounds of a network outage still to come (nothing answers)
+    pub outage: Vec<usize>,
+}
+
+impl Model {
+    pub fn new(path_len: Vec<usize>, first_ttl: u8) -> Self {
+        let n = path_len.len();
+        Self { path_len, round: vec![0; n], first_ttl, target_ttl: vec![None; n], outage: vec![0; n] }
+    }
 }
 
 pub fn gen_round(r: &mut Prng, m: &mut Model, trace: usize, strategy: MultipathStrategy) -> (Vec<ProbeStatus>, u8) {
@@ -46,13 +58,20 @@ pub fn gen_round(r: &mut Prng, m: &mut Model, trace: usize, strategy: MultipathS
         1 if m.path_len[trace] > 1 => m.path_len[trace] -= 1,
         _ => {}
     }
-    let len = m.path_len[trace];
+    let mut len = m.path_len[trace];
     let t0 = SystemTime::now() - Duration::from_secs(5);
     let flow_branch = if strategy == MultipathStrategy::Classic { 0 } else { r.below(3) as usize };
     // (a second, independently varying position gives up to nine distinct paths)
     let flow_branch2 = if strategy == MultipathStrategy::Classic { 0 } else { r.below(3) as usize };
     let mut probes = Vec::new();
-    let silent_round = r.chance(1, 12);
+    let silent_round = m.outage[trace] > 0 || r.chance(1, 12);
+    m.outage[trace] = m.outage[trace].saturating_sub(1);
+    if silent_round {
+        // (once the target's distance is known the strategy probes up to it and no further)
+        if let Some(t) = m.target_ttl[trace] {
+            len = usize::from(t - m.first_ttl) + 1;
+        }
+    }
     for j in 0..len {
         let ttl = m.first_ttl + j as u8;
         let p = probe_new(Sequence(33_000 + (k as u16 % 500) * 40 + j as u16), TraceId(100), Port(5000), Port(33_434 + j as u16), TimeToLive(ttl), RoundId(k), t0, Flags::empty());
@@ -74,7 +93,15 @@ pub fn gen_round(r: &mut Prng, m: &mut Model, trace: usize, strategy: MultipathS
         }
     }
     let answered = probes.iter().any(|p| matches!(p, ProbeStatus::Complete(_)));
-    let largest = if answered { m.first_ttl + len as u8 - 1 } else { 0 };
+    if matches!(probes.last(), Some(ProbeStatus::Complete(_))) {
+        m.target_ttl[trace] = Some(m.first_ttl + len as u8 - 1);
+    } else if answered {
+        // the path changed under the known distance: the strategy forgets it
+        if m.target_ttl[trace].is_some_and(|t| t != m.first_ttl + len as u8 - 1) {
+            m.target_ttl[trace] = None;
+        }
+    }
+    let largest = if answered { m.first_ttl + len as u8 - 1 } else { m.target_ttl[trace].unwrap_or(0) };
     (probes, largest)
 }
 
@@ -326,7 +353,7 @@ pub fn session(seed: u64, i: usize, tier: Tier, which: Which, progress: &crate::
             return o;
         }
     };
-    let mut model = Model { path_len: (0..traces).map(|_| r.range(1, 12) as usize).collect(), round: vec![0; traces], first_ttl: *r.pick(&[1u8, 1, 1, 2, 4]) };
+    let mut model = Model::new((0..traces).map(|_| r.range(1, 12) as usize).collect(), *r.pick(&[1u8, 1, 1, 2, 4]));
     // give the first tracer a source address by letting it really run one round over a world
     if r.chance(2, 3) {
         let t = targets_for(1)[0];
@@ -475,7 +502,36 @@ pub fn session(seed: u64, i: usize, tier: Tier, which: Which, progress: &crate::
             let find = |n: &str| keys.iter().find(|(k, _)| *k == n).copied();
             // (the other kind of burst: select a hop far down, freeze the display, open the flows
             // panel and switch between flows of different lengths)
-            if r.chance(1, 2) {
+            if r.chance(1, 3) {
+                // an outage: the trace data is cleared, for the next rounds nothing answers (the
+                // hops are back, without a single responder), and the keys that size the host
+                // column are pressed before the network recovers
+                if let (Some(clear), Some(a), Some(b), Some(c), Some(d)) = (find("clear_trace_data"), find("expand_hosts_max"), find("expand_hosts"), find("contract_hosts"), find("contract_hosts_min")) {
+                    for o in model.outage.iter_mut() {
+                        *o = r.range(2, 5) as usize;
+                    }
+                    burst.push_back(clear);
+                    for _ in 0..r.range(1, 4) {
+                        burst.push_back(*r.pick(&[a, a, b, c, d]));
+                    }
+                }
+            } else if r.chance(1, 4) {
+                // walk the addresses of a hop, then move to its neighbours (which may have fewer)
+                if let (Some(down), Some(up), Some(na), Some(pa), Some(details)) = (find("next_hop"), find("previous_hop"), find("next_hop_address"), find("previous_hop_address"), find("toggle_hop_details")) {
+                    if r.chance(1, 2) {
+                        burst.push_back(details);
+                    }
+                    for _ in 0..r.range(1, 12) {
+                        burst.push_back(down);
+                    }
+                    for _ in 0..r.range(1, 3) {
+                        burst.push_back(na);
+                    }
+                    for _ in 0..r.range(1, 4) {
+                        burst.push_back(*r.pick(&[up, up, down, na, pa]));
+                    }
+                }
+            } else if r.chance(1, 2) {
                 if let (Some(down), Some(freeze), Some(flows), Some(next), Some(prev), Some(esc)) = (find("next_hop"), find("toggle_freeze"), find("toggle_flows"), find("next_trace"), find("previous_trace"), find("clear_selection")) {
                     burst.push_back(esc);
                     for _ in 0..r.range(1, 30) {
@@ -493,9 +549,9 @@ pub fn session(seed: u64, i: usize, tier: Tier, which: Which, progress: &crate::
                     }
                 }
             } else
-            if let (Some(open), Some(down), Some(mv_down), Some(mv_up), Some(toggle)) = (find("toggle_settings_columns"), find("next_hop"), find("next_hop_address"), find("previous_hop_address"), find("toggle_chart")) {
+            if let (Some(open), Some(down), Some(mv_down), Some(mv_up), Some(toggle)) = (find(*r.pick(&["toggle_settings_columns", "toggle_settings_columns", "toggle_settings_bindings", "toggle_settings_theme", "toggle_settings_tui"])), find("next_hop"), find("next_hop_address"), find("previous_hop_address"), find("toggle_chart")) {
                 burst.push_back(open);
-                for _ in 0..*r.pick(&[0u64, 1, 5, 26, 27, 30]) {
+                for _ in 0..*r.pick(&[0u64, 1, 5, 26, 27, 30, 33, 37]) {
                     burst.push_back(down);
                 }
                 for _ in 0..r.range(1, 4) {
